@@ -653,7 +653,7 @@ def child_main():
     elif kind == "history":
         from harness.props import c15
 
-        out = c15.run_history(job["steps"], job["pq"], job.get("oracle"))
+        out = c15.run_history(job["steps"], job["pq"], job.get("oracle"), job.get("only"))
     else:
         out = {"error": "unknown job kind"}
     sys.stdout.write("\n@@RESULT@@" + json.dumps(out) + "\n")
